@@ -29,6 +29,9 @@ pub struct Model {
     pub zombies: Vec<MEntry>,
     /// last write (seq) per key, to know whether a lookup is "settled"
     pub dirty: BTreeMap<u64, u64>,
+    /// keys written again before the previous write had been applied (the second New item is
+    /// legitimately refused as a duplicate): their content is unknown until the next settled write
+    pub ambiguous: std::collections::BTreeSet<u64>,
 }
 
 pub struct TtlOutcome {
@@ -92,6 +95,12 @@ pub fn check_ttl(h: &Hist, want: &[&str]) -> TtlOutcome {
                 match (&o.op, o.res.as_ref().unwrap()) {
                     (Op::Insert { k, ttl_ns, .. }, res) => {
                         let had = m.map.get(k).cloned();
+                        let prev_dirty = m.dirty.get(k).copied().unwrap_or(0);
+                        if settled(h, prev_dirty, o.inv_seq) {
+                            m.ambiguous.remove(k);
+                        } else {
+                            m.ambiguous.insert(*k);
+                        }
                         match res {
                             Res::Bool(true) => {
                                 if let Some(prev) = &had {
@@ -128,6 +137,12 @@ pub fn check_ttl(h: &Hist, want: &[&str]) -> TtlOutcome {
                         }
                     }
                     (Op::Remove { k }, _) => {
+                        let prev_dirty = m.dirty.get(k).copied().unwrap_or(0);
+                        if settled(h, prev_dirty, o.inv_seq) {
+                            m.ambiguous.remove(k);
+                        } else {
+                            m.ambiguous.insert(*k);
+                        }
                         let idx = h.index_of(*k);
                         must_reclaim.retain(|(e, _)| h.index_of(e.val.key) != idx);
                         m.zombies.retain(|e| h.index_of(e.val.key) != idx);
@@ -136,6 +151,7 @@ pub fn check_ttl(h: &Hist, want: &[&str]) -> TtlOutcome {
                     }
                     (Op::Clear, _) => {
                         m.map.clear();
+                        m.ambiguous.clear();
                         m.zombies.clear();
                         must_reclaim.clear();
                         last_clear_inv = Some(o.inv_seq);
@@ -179,7 +195,7 @@ pub fn check_ttl(h: &Hist, want: &[&str]) -> TtlOutcome {
                 for k in keys {
                     let e = m.map.get(&k).unwrap().clone();
                     if let Some((_, hi)) = e.exp {
-                        if t >= hi && settled(h, e.write_seq, cp.seq) {
+                        if t >= hi && settled(h, e.write_seq, cp.seq) && !m.ambiguous.contains(&k) {
                             m.map.remove(&k);
                             must_reclaim.push((e.clone(), hi));
                             m.zombies.push(e);
@@ -197,7 +213,7 @@ pub fn check_ttl(h: &Hist, want: &[&str]) -> TtlOutcome {
                 // C04: every live model entry is resident with the right value
                 if c04 && !over_cap {
                     for (k, e) in m.map.iter() {
-                        if !settled(h, e.write_seq, cp.seq) {
+                        if !settled(h, e.write_seq, cp.seq) || m.ambiguous.contains(k) {
                             continue;
                         }
                         let live = e.exp.map_or(true, |(lo, _)| t < lo);
@@ -221,7 +237,7 @@ pub fn check_ttl(h: &Hist, want: &[&str]) -> TtlOutcome {
                     for x in entries {
                         let known_live = m.map.values().any(|e| e.val.id == x.val.id);
                         let zombie = m.zombies.iter().any(|e| e.val.id == x.val.id);
-                        let unsettled = m.dirty.get(&x.val.key).map_or(false, |d| !settled(h, *d, cp.seq));
+                        let unsettled = m.dirty.get(&x.val.key).map_or(false, |d| !settled(h, *d, cp.seq)) || m.ambiguous.contains(&x.val.key);
                         if !known_live && !zombie && !unsettled {
                             out.violations.push(viol(
                                 "C04",
@@ -349,7 +365,7 @@ fn clear_covering(h: &Hist, seq: u64) -> Option<usize> {
 #[allow(clippy::too_many_arguments)]
 fn lookup_check(h: &Hist, out: &mut TtlOutcome, m: &Model, k: u64, o: &OpRec, got: Option<Val>, ttl: Option<u64>, c03: bool, c04: bool, over_cap: bool, expired_seen: &mut u64) {
     let d = m.dirty.get(&k).copied().unwrap_or(0);
-    if !settled(h, d, o.inv_seq) {
+    if !settled(h, d, o.inv_seq) || m.ambiguous.contains(&k) {
         return;
     }
     match m.map.get(&k) {
@@ -436,7 +452,7 @@ fn ttl_value_check(out: &mut TtlOutcome, e: &MEntry, o: &OpRec, t: u64) {
 #[allow(clippy::too_many_arguments)]
 fn ttl_check(h: &Hist, out: &mut TtlOutcome, m: &Model, k: u64, o: &OpRec, t: Option<u64>, c03: bool, c04: bool, over_cap: bool) {
     let d = m.dirty.get(&k).copied().unwrap_or(0);
-    if !settled(h, d, o.inv_seq) {
+    if !settled(h, d, o.inv_seq) || m.ambiguous.contains(&k) {
         return;
     }
     match m.map.get(&k) {
